@@ -42,6 +42,31 @@ fn quoted_ok(b: &[u8]) -> bool {
     b.iter().all(|c| matches!(*c, 0x01..=0x7f) && !matches!(*c, b'\r' | b'\n' | b'"' | b'\\'))
 }
 
+thread_local! {
+    /// When set, a string that contains a double quote or a backslash may be sent as a quoted string with
+    /// the two RFC 3501 escapes (a conformant server may do that).  The crate returns quoted strings
+    /// without undoing the escapes, so the parsed value is then NOT the printed one: only checks that do
+    /// not compare such values (C16's "one value per item", the robustness checks) switch this on.
+    pub static ESCAPED_QUOTED: std::cell::Cell<bool> = const { std::cell::Cell::new(false) };
+}
+
+pub fn with_escaped_quoted<T>(f: impl FnOnce() -> T) -> T {
+    struct Reset(bool);
+    impl Drop for Reset {
+        fn drop(&mut self) {
+            ESCAPED_QUOTED.with(|c| c.set(self.0));
+        }
+    }
+    let _r = Reset(ESCAPED_QUOTED.with(|c| c.get()));
+    ESCAPED_QUOTED.with(|c| c.set(true));
+    f()
+}
+
+/// TEXT-CHARs that include a quoted-special: printable as a quoted string only with escapes
+fn escaped_quoted_ok(b: &[u8]) -> bool {
+    b.iter().all(|c| matches!(*c, 0x01..=0x7f) && !matches!(*c, b'\r' | b'\n')) && b.iter().any(|c| matches!(*c, b'"' | b'\\'))
+}
+
 #[derive(Clone, Copy, PartialEq, Eq)]
 enum Form {
     Atom,
@@ -192,14 +217,35 @@ impl<'a> Pr<'a> {
         }
     }
 
+    fn try_escaped(&mut self, b: &[u8]) -> bool {
+        if ESCAPED_QUOTED.with(|c| c.get()) && escaped_quoted_ok(b) && self.rng.chance(3, 4) {
+            self.raw(b"\"");
+            for c in b {
+                if *c == b'"' || *c == b'\\' {
+                    self.o.push(b'\\');
+                }
+                self.o.push(*c);
+            }
+            self.raw(b"\"");
+            return true;
+        }
+        false
+    }
+
     /// string = quoted / literal
     fn string(&mut self, b: &[u8]) {
+        if self.try_escaped(b) {
+            return;
+        }
         let f = self.choose(false, quoted_ok(b), true);
         self.emit(f, b);
     }
 
     /// astring = 1*ASTRING-CHAR / string
     fn astring(&mut self, b: &[u8]) {
+        if self.try_escaped(b) {
+            return;
+        }
         let f = self.choose(astring_atom_ok(b), quoted_ok(b), true);
         self.emit(f, b);
     }
